@@ -20,12 +20,12 @@ EXT = [{"source_name": "s", "description": "x"}]
 
 BASES = {
     "v21-malware": {"type": "malware", "spec_version": "2.1", "id": "malware--" + U + "17", "created": TS, "modified": TS, "name": "n", "description": "d",
-                    "is_family": False, "created_by_ref": "identity--" + U + "17", "labels": ["l0", "l1"], "external_references": EXT},
+                    "is_family": False, "created_by_ref": "identity--" + U + "17", "labels": ["l%d" % i for i in range(12)], "external_references": EXT},
     "v20-malware": {"type": "malware", "id": "malware--3f7f0c5f-5d54-4292-94ea-ec1e1952be17", "created": TS, "modified": TS, "name": "n", "description": "d",
-                    "created_by_ref": "identity--3f7f0c5f-5d54-4292-94ea-ec1e1952be17", "labels": ["l0", "l1"], "external_references": EXT},
+                    "created_by_ref": "identity--3f7f0c5f-5d54-4292-94ea-ec1e1952be17", "labels": ["l%d" % i for i in range(12)], "external_references": EXT},
     "v21-relationship": {"type": "relationship", "spec_version": "2.1", "id": "relationship--" + U + "17", "created": TS, "modified": TS,
                          "relationship_type": "uses", "source_ref": "malware--" + U + "17", "target_ref": "tool--" + U + "17", "description": "d",
-                         "created_by_ref": "identity--" + U + "17", "labels": ["l0", "l1"], "external_references": EXT},
+                         "created_by_ref": "identity--" + U + "17", "labels": ["l%d" % i for i in range(12)], "external_references": EXT},
     "v21-marking-definition": {"type": "marking-definition", "spec_version": "2.1", "id": "marking-definition--" + U + "17", "created": TS,
                                "definition_type": "statement", "definition": {"statement": "s"}, "name": "n", "created_by_ref": "identity--" + U + "17",
                                "external_references": EXT},
@@ -33,20 +33,20 @@ BASES = {
 BASES["v21-malware-dict"] = BASES["v21-malware"]
 VERSION = {"v21-malware": "2.1", "v20-malware": "2.0", "v21-relationship": "2.1", "v21-marking-definition": "2.1", "v21-malware-dict": "2.1"}
 
-SEL_MALWARE = ["name", "description", "created", "created_by_ref", "labels", "labels.[0]", "labels.[1]", "external_references",
+SEL_MALWARE = ["name", "description", "created", "created_by_ref", "labels", "labels.[0]", "labels.[1]", "labels.[10]", "external_references",
                "external_references.[0]", "external_references.[0].description"]
 SELECTORS = {
     "v21-malware": SEL_MALWARE, "v20-malware": SEL_MALWARE, "v21-malware-dict": SEL_MALWARE,
-    "v21-relationship": ["relationship_type", "description", "created", "created_by_ref", "labels", "labels.[0]", "labels.[1]", "external_references",
+    "v21-relationship": ["relationship_type", "description", "created", "created_by_ref", "labels", "labels.[0]", "labels.[1]", "labels.[10]", "external_references",
                          "external_references.[0]", "external_references.[0].description"],
     "v21-marking-definition": ["name", "created", "created_by_ref", "definition", "definition.statement", "external_references.[0].description"],
 }
 # event alphabet (quick is a sub-alphabet chosen to keep every relation: prefix siblings, list parent/child, nested, multi-selector)
 EV_SEL = {
-    "quick": [None, ["name"], ["created"], ["created_by_ref"], ["labels"], ["labels.[0]"], ["external_references.[0].description"], ["name", "labels"],
+    "quick": [None, ["name"], ["created"], ["created_by_ref"], ["labels"], ["labels.[10]"], ["external_references.[0].description"], ["name", "labels"],
               ["created_by_ref", "created"], []],
     "thorough": [None, ["name"], ["description"], ["created"], ["created_by_ref"], ["labels"], ["labels.[0]"], ["labels.[1]"], ["external_references"],
-                 ["external_references.[0].description"], ["name", "labels"], ["created_by_ref", "created"], ["labels.[1]", "labels.[0]"], [], ""],
+                 ["external_references.[0].description"], ["name", "labels"], ["created_by_ref", "created"], ["labels.[1]", "labels.[0]"], ["labels.[10]"], [], ""],
 }
 EV_MARK = {
     "quick": [["RED"], ["STMT"], ["en"], ["RED", "en"], ["RED", "RED"], ["RED-obj"]],
